@@ -311,12 +311,20 @@ def rescale(img, scale, shape=None, mask=None, order=3, mode='nearest',
     """
 
     img = np.asarray(img)
+    if not np.issubdtype(img.dtype, np.inexact):
+        # integer and boolean images are interpolated and masked in floating
+        # point
+        img = img.astype(float)
 
     if mask is None:
         # take the real portion to ensure that even if img is complex, mask will
         # be real
         mask = np.zeros_like(img).real
         mask[img != 0] = 1
+
+    # the mask is interpolated in floating point as well (an integer or boolean
+    # mask has no machine epsilon and would be truncated by the interpolator)
+    mask = np.asarray(mask, dtype=float)
 
     if shape is None:
         shape = np.ceil((img.shape[0]*scale, img.shape[1]*scale)).astype(int)
